@@ -86,8 +86,22 @@ async def _agen(xs: list, suspend: bool):
         yield x
 
 
+class AsyncSeq:
+    """a re-iterable async source (the async analogue of a list): every __aiter__ starts over"""
+
+    def __init__(self, xs: list, suspend: bool) -> None:
+        self.xs, self.suspend = list(xs), suspend
+
+    def __aiter__(self) -> Any:
+        return _agen(self.xs, self.suspend)
+
+
 def src(xs: list, kind: str) -> Any:
     """the same element sequence as a sync or an async iterable"""
+    if kind == "areiter":
+        return AsyncSeq(xs, False)
+    if kind == "areiters":
+        return AsyncSeq(xs, True)
     if kind == "sync":
         return list(xs)
     if kind == "iter":
@@ -476,7 +490,7 @@ def run_iter_cases(cases: list[dict], res: Result, start_index: int = 0) -> None
     kinds = []
     for i, _ in enumerate(cases):
         j = start_index + i
-        kinds.append(("sync" if j % 4 else "iter", "async" if j % 2 else "asyncs"))
+        kinds.append(("sync" if j % 4 else "iter", ("async", "asyncs", "areiter", "async", "asyncs", "areiters")[j % 6]))
     real = asyncio.run(_run_real(cases, kinds))
     lines: list[str] = []
     for case, ks in zip(cases, kinds):
@@ -730,26 +744,34 @@ def run_cancel_retry(res: Result) -> None:
     the (shielded) checkpoint.  Sweeps the cancellation over every scheduling point."""
     from anyio import CancelScope
 
-    async def sweep(ncons: int, data: list, at: int) -> list[list]:
+    async def sweep(ncons: int, data: list, at: int, target: int = 0, lag: bool = False) -> list[list]:
         its = ai.tee(list(data), ncons)
         seen: list[list] = [[] for _ in its]
         cur: list[Any] = [None] * ncons
+        first_done = anyio.Event()
 
         async def consume(i: int) -> None:
+            if lag and i > 0:
+                # the others replay from the buffer once consumer 0 has run through the source
+                await first_done.wait()
             while True:
                 with CancelScope() as sc:
                     cur[i] = sc
                     try:
                         x = await anext(its[i])
                     except StopAsyncIteration:
+                        if i == 0:
+                            first_done.set()
                         return
                     seen[i].append(x)
 
         async def controller() -> None:
+            if lag and target > 0:
+                await first_done.wait()
             for _ in range(at):
                 await asyncio.sleep(0)
-            if cur[0] is not None:
-                cur[0].cancel()
+            if cur[target] is not None:
+                cur[target].cancel()
 
         async with anyio.create_task_group() as tg:
             for i in range(ncons):
@@ -758,18 +780,21 @@ def run_cancel_retry(res: Result) -> None:
         return seen
 
     data = ["a", "b", "c", "d"]
-    for ncons in (1, 2, 3):
+    combos = [(n, t, lag) for n in (1, 2, 3) for t in range(n) for lag in (False, True) if not (lag and n == 1)]
+    for ncons, target, lag in combos:
         for at in range(0, 16):
             try:
-                seen = anyio.run(sweep, ncons, data, at)
+                seen = anyio.run(sweep, ncons, data, at, target, lag)
             except BaseException as e:  # noqa: BLE001
                 seen = [[f"raised {type(e).__name__}"]]
             res.evaluations += 1
             res.stats["cancel_retry_cases"] = res.stats.get("cancel_retry_cases", 0) + 1
             if any(s_ != data for s_ in seen):
                 res.violations.append(Violation(
-                    {"tee_cancel_retry": {"consumers": ncons, "cancel_after_yields": at}},
-                    f"tee over the synchronous list {data} with {ncons} consumer(s), consumer 0 cancelled once "
+                    {"tee_cancel_retry": {"consumers": ncons, "cancel_after_yields": at, "target": target,
+                                          "lag": lag}},
+                    f"tee over the synchronous list {data} with {ncons} consumer(s), consumer {target} "
+                    f"{'(replaying buffered elements) ' if lag and target else ''}cancelled once "
                     f"after {at} scheduling steps and retrying: consumers observed {seen}",
                     "C19:element-lost-on-cancelled-anext"))
                 return
@@ -811,6 +836,12 @@ def replay(ctx: Ctx, case: Any) -> Result:
     res = Result(rule="replay")
     if isinstance(case, dict) and ("tee" in case or "tee_args" in case):
         replay_tee(case, res)
+    elif isinstance(case, dict) and "tee_cancel_retry" in case:
+        run_cancel_retry(res)
+    elif isinstance(case, dict) and "groupby_odd_equality" in case:
+        run_odd_equality(res)
+    elif isinstance(case, dict) and "partial_callback" in case:
+        run_partial_callbacks(res)
     else:
         case = {k: v for k, v in case.items() if k != "kind"}
         run_iter_cases([case], res)
